@@ -98,7 +98,7 @@ theorem stackLoad_ok (p : Params) (sa : Nat) (h3 : Hyp3 p sa) (e : Emit) (M : St
           exfalso
           obtain ⟨hj, a2, a3, a4⟩ := hw.inv g v.out.regId j hglt hs.outLt hp
           have hvj := hw.var j hj a4
-          obtain ⟨_, _, _, _, hdj, _⟩ := hvj.tok
+          obtain ⟨_, _, _, _, hdj⟩ := hvj.tok
           have hji : j ≠ i := by intro hh; subst hh; rw [hvdef, hreg'] at a4; exact absurd a4 (by simp)
           have hrid := (hdj (hdone j hj a4)).1
           exact h3.dd j i hj hi hji ⟨by rw [← hvj.out, ← hs.out, ← hvj.grp, a2], by rw [← hvj.out, ← hs.out, ← hrid, a3]⟩
@@ -151,19 +151,19 @@ theorem stackLoad_ok (p : Params) (sa : Nat) (h3 : Hyp3 p sa) (e : Emit) (M : St
         by_cases hji : j = i
         · subst hji
           rw [hvar'i, ← hvar'def]
-          refine ⟨hs.out, rfl, rfl, hs.outReg, hs.outInit, rfl, hs.grpLt, hs.outLt, hs.outLt, ?_, ?_, fun h => absurd h (by simp)⟩
+          refine ⟨hs.out, rfl, rfl, hs.outReg, hs.outInit, rfl, hs.grpLt, hs.outLt, hs.outLt, ?_, ?_⟩
           · show physAt c' (groupOf v.out.regType) v.out.regId = some j
             rw [hphys']; simp [g]
-          · refine ⟨tok', get_set_self _ _ _, ?_, fun h => absurd h (by simp), fun _ => ⟨rfl, hdv⟩, fun h => absurd h (by simp)⟩
+          · refine ⟨tok', get_set_self _ _ _, ?_, fun h => absurd h (by simp), fun _ => ⟨rfl, hdv⟩⟩
             show (moveTok p.vis (initTok p.vis j) k c w).var = j
             rw [moveTok_var]; simp [initTok]
         · rw [hvar'j j hji] at hrj' ⊢
           have hvj := hw.var j hj hrj'
           have hne := hother j hj hrj'
-          refine ⟨hvj.out, hvj.curReg, hvj.notStk, hvj.outReg, hvj.outInit, hvj.grp, hvj.grpLt, hvj.curLt, hvj.outLt, ?_, ?_, hvj.fresh⟩
+          refine ⟨hvj.out, hvj.curReg, hvj.notStk, hvj.outReg, hvj.outInit, hvj.grp, hvj.grpLt, hvj.curLt, hvj.outLt, ?_, ?_⟩
           · rw [hphys']; simp only [hne, if_false]; exact hvj.phys
-          · obtain ⟨tj, hgetj, r1, r2, r3, r4⟩ := hvj.tok
-            refine ⟨tj, ?_, r1, r2, r3, r4⟩
+          · obtain ⟨tj, hgetj, r1, r2, r3⟩ := hvj.tok
+            refine ⟨tj, ?_, r1, r2, r3⟩
             rw [← hgetj]
             apply get_set_ne
             intro heq
